@@ -28,6 +28,20 @@ C = "ebpfcat.ebpfcat."
 
 
 def run(chk, repo):
+    from . import c18
+    chk.doc("R18.1", "the expected working counter counts exactly the "
+                     "terminals that got a region in the datagram (shared "
+                     "with C18)")
+    c18.allocators(chk, repo)
+    chk.doc("R30.5", "the cycle of SyncGroup is not replaced in a subclass")
+    override_rule(chk, repo, "R30.5", "ebpfcat.ebpfcat.SyncGroup",
+                  ["update_devices"], "the order copy / compare counters / "
+                  "update devices / return frame established here is what "
+                  "every slow group runs")
+    from . import c19
+    chk.doc("R19.4", "devices read and write the group's current frame on "
+                     "every access (shared with C19)")
+    c19.closures(chk, repo)
     chk.doc("R30.4", "recorded counter positions are per packet")
     per_instance_rule(chk, repo, "R30.4", ["ebpfcat.ebpfcat.SterilePacket"], "one group checks and "
                       "clears working counters at another group's positions")
